@@ -47,6 +47,11 @@ pub fn gen_points(
                 } else {
                     evar
                 },
+                deadband: if t == PointType::Analog && rng.chance(1, 3) {
+                    rng.below(30) as u16
+                } else {
+                    0
+                },
             });
             let step = if sparse && rng.chance(1, 3) {
                 rng.range(2, 300) as u16
@@ -110,6 +115,7 @@ pub fn gen_update(rng: &mut Rng, points: &[PointCfg], clock: &mut u64) -> Update
             1..=4 => 1,
             _ => 0,
         },
+        flags_only: p.ptype != PointType::OctetString && rng.chance(1, 12),
     }
 }
 
@@ -258,6 +264,9 @@ pub fn gen_event_cfg(rng: &mut Rng) -> OutCfg {
     };
     cfg.close_mode = rng.bool();
     cfg.decode_all = rng.chance(1, 12);
+    // outstation-side keep-alive: link status requests written when nothing was heard for that long
+    cfg.keep_alive_ms = *rng.pick(&[None, None, None, Some(700u64), Some(4000)]);
+    cfg.restart_answer = *rng.pick(&[0u8, 0, 1, 2]);
     let style = rng.below(3);
     for i in 0..8 {
         cfg.event_buffers[i] = match style {
